@@ -159,6 +159,7 @@ func ProfileDump() {
 	if profSteps == nil {
 		return
 	}
+	defer forkProfileDump()
 	type kv struct {
 		k string
 		v int64
@@ -489,6 +490,7 @@ func (in *Interp) fork(alts []*smt.Term, label string) int {
 	}
 	if len(feas) > 1 {
 		in.res.Stats.Forks += len(feas) - 1
+		in.noteFork(label, len(feas)-1)
 	}
 	d := decision{taken: feas[0], remaining: feas[1:], label: label}
 	in.decisions = append(in.decisions, d)
